@@ -308,7 +308,13 @@ func PrepareForPackager(
 			}
 
 			cc := content.WithFileInfoDefaults(umask, mtime)
-			cc.Source = ToNixPath(cc.Source)
+			if cc.Type == TypeSymlink {
+				// the source of a symlink is its target and is shipped as written:
+				// cleaning "a/../b" or a trailing slash changes what it points to
+				cc.Source = filepath.ToSlash(cc.Source)
+			} else {
+				cc.Source = ToNixPath(cc.Source)
+			}
 			cc.Destination = NormalizeAbsoluteFilePath(cc.Destination)
 			contentMap[cc.Destination] = cc
 		case TypeTree:
